@@ -120,6 +120,15 @@ func init() {
 				Bound: fmt.Sprintf("all edge lists with <=%d edges x greedy x {ns,lp} x 4 size-aware positioners x splines", d-1)},
 			{Name: "G-deep", Space: spaceG(d+1, d+1, tierPick(tier, 0, 6), nil), Eval: stdEval("C06", staticGrid(g5), or),
 				Bound: fmt.Sprintf("all edge lists with %d edges x greedy x {ns,lp} x 4 size-aware positioners x {polyline,ortho} x per-node sizes", d+1)},
+			{Name: "G4-height-rotations", Space: spaceG(2, 4, 0, nil), Eval: stdEval("C06", func(in Input, a *Analysis) []Cfg {
+				var out []Cfg
+				for rt := 1; rt < len(tabW); rt++ {
+					for _, p5 := range []int{2, 3} {
+						out = append(out, Cfg{P2: rt % 2, P4: rt % 4, P5: p5, SZ: 2, Rot: rt, NS: 4, LS: 8, TH: -1, Virt: p5 == 2 && rt%2 == 0})
+					}
+				}
+				return out
+			}, or), Bound: "all edge lists with 2..4 edges x the size table in all 7 other rotations (which node is tall/short, wide/narrow) x {polyline,ortho}, positioner and layerer varied with the rotation"},
 			{Name: "seeds", Space: spaceSeeded(seedWitnesses, tierPick(tier, 1, 2)), Eval: stdEval("C06", staticGrid(g), or),
 				Bound: "all states within 1 (thorough 2) edit operations of the recorded witnesses"},
 		}
@@ -143,6 +152,8 @@ func init() {
 				Bound: "all edge lists with <=5 edges (connected and disconnected) x {greedy,dfs} x thoroughness {28,1,0}"},
 			{Name: "D(6,<=8)", Space: spaceD(6, 5, tierPick(tier, 8, 8), true), Eval: stdEval("C10", staticGrid(gd), or),
 				Bound: "every multiset of 5..8 edges over the 15 pairs u<v of 6 nodes, in lexicographic and reverse order (the space where the simplex pivots)"},
+			{Name: "G6n4", Space: spaceG(6, 6, 4, nil), Eval: stdEval("C10", staticGrid(gridSpec{P1: allP1, P2: []int{0}, P4: []int{1}, P5: []int{0}, SZ: []int{1}, TH: []int{28}}.list()), or),
+				Bound: "all edge lists with 6 edges on <=4 nodes (dense, cyclic multigraphs) x {greedy,dfs}"},
 			{Name: "seeds", Space: spaceSeeded(seedWitnesses, tierPick(tier, 1, 2)), Eval: stdEval("C10", staticGrid(g), or),
 				Bound: "all states within 1 (thorough 2) edit operations of the recorded witnesses"},
 			{Name: "families", Space: spaceList(c10Families()), Eval: stdEval("C10", staticGrid(gd), or),
@@ -174,6 +185,8 @@ func init() {
 		ps := []*Pass{
 			{Name: "G", Space: spaceG(1, d, 0, nil), Eval: stdEval("C11", staticGrid(g), or),
 				Bound: fmt.Sprintf("all edge lists with <=%d edges x {greedy,dfs} x longest path x {fixed,per-node}", d)},
+			{Name: "G6n4", Space: spaceG(6, tierPick(tier, 6, 7), 4, nil), Eval: stdEval("C11", staticGrid(gridSpec{P1: allP1, P2: []int{1}, P4: []int{1}, P5: []int{0}, SZ: []int{1}}.list()), or),
+				Bound: "all edge lists with 6 (thorough 6..7) edges on <=4 nodes (dense, cyclic multigraphs) x {greedy,dfs}"},
 			{Name: "G-random-greedy", Space: spaceG(1, 4, 0, cyclic), Eval: stdEval("C11", staticGrid(gridSpec{P1: []int{2}, P2: []int{1}, P4: []int{1}, P5: []int{0}, SZ: []int{1}}.list()), or),
 				Bound: "all cyclic edge lists with <=4 edges x greedy-random with every RNG answer sequence"},
 			{Name: "D(6,7)", Space: spaceD(6, 6, 7, false), Eval: stdEval("C11", staticGrid(gridSpec{P1: []int{0}, P2: []int{1}, P4: []int{1}, P5: []int{0}, SZ: []int{1}}.list()), or),
